@@ -14,6 +14,7 @@ for f in $(git diff --name-only --diff-filter=U); do
 done
 # evidence must come from /verif run against /repo itself: never take an agent's evidence files
 git checkout -q ORIG_HEAD -- evidence 2>/dev/null || git checkout -q HEAD -- evidence 2>/dev/null
+if git diff --name-only --diff-filter=U | grep -v "^MANIFEST.json$\|^known_findings.json$" | grep -q .; then echo "unresolved conflicts (resolve by hand, then: python3 lib/mkmanifest.py; git add -A; git commit)"; git diff --name-only --diff-filter=U; exit 1; fi
 python3 lib/mkmanifest.py
 git add -A
 if git diff --name-only --diff-filter=U | grep -q .; then echo "unresolved conflicts"; git status --short | grep "^U\|^AA"; exit 1; fi
